@@ -623,7 +623,10 @@ ADDED4 = {
     "C13": "CreateInstance rejected because a copy exists (clause "
            "Repository.UnchangedByRejectedCreate, AssocImplLegacyNoPreCheck "
            "must fail), an association class whose superclass differs per "
-           "namespace (AssocImplLegacySubCache must fail).",
+           "namespace (AssocImplLegacySubCache must fail), ModifyInstance "
+           "of the reference properties of a multi-namespace association "
+           "(action ModifyEnds; AssocImplAsIsModEnds must fail = known "
+           "finding).",
     "C14": "association filter arguments on the four association Opens "
            "(dimension flt: none / keeps all / drops some).",
     "C15": "filter class and OperationTimeout class of the call, case "
